@@ -159,7 +159,7 @@ def fam_futex(rng):
         if rng.random() < 0.5:
             wops.append("sem_p s0"); need += 1
         else:
-            wops.append("sem_pd s0 %s" % rng.choice(["inf", "p1000", "p40000", "m5", "z"]))
+            wops.append("sem_pd s0 %s" % rng.choice(["inf", "p1000", "p40000", "m5", "z", "neg"]))
             need += 1   # a timed wait may consume a post
     lines = ["sem counting", "objs mu=1 sem=1", "fiber " + " ; ".join(wops)]
     posts = need + rng.choice([0, 0, 1])
